@@ -21,7 +21,7 @@ Trace format (everything is a small int or a short string, as TLC's Json module 
   key     "i": key[0], "k": class of the whole key tuple
   map key "mk": class of the key as a dict key
   result  "r": value | {"t":"none"} (python None) | {"t":"NOTSET"} (the sentinel) |
-          {"t":"raised:<Type>"} | {"t":"list","v":len}; "rl": the list
+          {"t":"raised:<Type>"} | {"t":"#list","v":len}; "rl": the list
           iterate entry {"i","k","val","s": is_set,"m": [[mk, index], ...]}
           group indices (add_map/get_map results, "m") are the integers themselves
 """
@@ -32,6 +32,7 @@ OPS = ('add_key', 'del_key', 'clear', 'is_cleared', 'is_set', 'get', 'set', 'ite
 
 NONE = {'t': 'none', 'v': 0}
 NOTSET = {'t': 'NOTSET', 'v': 0}
+LIST = '#list'            # tag of an enumeration result (not a python type name)
 INT_MAX = 2 ** 31 - 1
 
 
@@ -120,12 +121,15 @@ class Encoder(object):
             return {'t': 'int', 'v': x}
         return self.value(x)
 
-    def result(self, x, notset, is_index=False):
-        if x is None:
-            return dict(NONE)
+    def result(self, x, notset, kind='none'):
+        """kind: 'none'  the method returns nothing (add_key, set, del_key, clear)
+                 'value' get(): a stored value (a stored None is a value) or the sentinel
+                 'index' add_map/get_map/del_map: a group index or the sentinel"""
         if x is notset:
             return dict(NOTSET)
-        if is_index:
+        if kind == 'none' and x is None:
+            return dict(NONE)
+        if kind == 'index':
             return self.index(x)
         return self.value(x)
 
@@ -215,7 +219,7 @@ def recording_store_class():
             return create
 
         # ---- plumbing
-        def _c14_call(self, entry, fn, args, is_index=False):
+        def _c14_call(self, entry, fn, args, kind='none'):
             if self._c14_depth > 0:       # MemoryStore calling itself (add_key -> set)
                 return fn(*args)
             enc = self._c14['enc']
@@ -228,7 +232,7 @@ def recording_store_class():
                 raise
             finally:
                 self._c14_depth -= 1
-            entry['r'] = enc.result(r, notset, is_index)
+            entry['r'] = enc.result(r, notset, kind)
             return r
 
         def _c14_key(self, op, key, a=None, mk=-1):
@@ -254,7 +258,7 @@ def recording_store_class():
                 entry['rl'] = []
                 del entry['_open']
                 raise
-            entry['r'] = {'t': 'list', 'v': len(entry['rl'])}
+            entry['r'] = {'t': LIST, 'v': len(entry['rl'])}
             del entry['_open']
 
         # ---- the public methods of MemoryStore
@@ -268,13 +272,14 @@ def recording_store_class():
             return self._c14_call(new_call('clear'), super().clear, ())
 
         def is_cleared(self, key):
-            return self._c14_call(self._c14_key('is_cleared', key), super().is_cleared, (key,))
+            return self._c14_call(self._c14_key('is_cleared', key), super().is_cleared, (key,),
+                                  kind='value')
 
         def is_set(self, key):
-            return self._c14_call(self._c14_key('is_set', key), super().is_set, (key,))
+            return self._c14_call(self._c14_key('is_set', key), super().is_set, (key,), kind='value')
 
         def get(self, key):
-            return self._c14_call(self._c14_key('get', key), super().get, (key,))
+            return self._c14_call(self._c14_key('get', key), super().get, (key,), kind='value')
 
         def set(self, key, value):
             if self._c14_depth > 0:
@@ -289,17 +294,17 @@ def recording_store_class():
         def add_map(self, key, map_key):
             mk = self._c14['enc'].mapkey(map_key)
             return self._c14_call(self._c14_key('add_map', key, mk=mk), super().add_map,
-                                  (key, map_key), is_index=True)
+                                  (key, map_key), kind='index')
 
         def get_map(self, key, map_key):
             mk = self._c14['enc'].mapkey(map_key)
             return self._c14_call(self._c14_key('get_map', key, mk=mk), super().get_map,
-                                  (key, map_key), is_index=True)
+                                  (key, map_key), kind='index')
 
         def del_map(self, key, map_key):
             mk = self._c14['enc'].mapkey(map_key)
             return self._c14_call(self._c14_key('del_map', key, mk=mk), super().del_map,
-                                  (key, map_key), is_index=True)
+                                  (key, map_key), kind='index')
 
         def iterate_map(self, key):
             return self._c14_gen(self._c14_key('iterate_map', key), super().iterate_map(key),
